@@ -448,6 +448,14 @@ CONTRACTS.update({
         'assigns': ['__CPROVER_object_whole(data)'],
         'ensures': ['spec_ser_ok(self, data)'],
     },
+    # deSerialize: the board, flags and clocks are exactly what the compact form encodes (the inverse of spec_ser_ok), the
+    # bitboards are the from-scratch bitboards of that board, the evaluator pointer is kept.  Precondition from the call
+    # sites (data always comes from serialize): nibbles are piece codes, the ep byte is a square or 0xff.
+    'Position_deSerialize': {
+        'requires': [_SELF, 'NN_OK(self)', '__CPROVER_is_fresh(data, sizeof(*data))', 'PIECEVALUES_OK', 'ser_nibbles_ok(data)', 'ser_flags_ok(data)'],
+        'assigns': ['*self', 'self->nnEval != 0: self->nnEval->ghost_calls'],
+        'ensures': ['spec_deser_ok(self, data)', 'wf_bb(self)', 'FLAGS_OK(self)', 'self->nnEval == __CPROVER_old(self->nnEval)'],
+    },
     'Position_bookHash': {
         'requires': [_SELF, '0 <= self->halfMoveClock'],
         'assigns': [],
@@ -492,6 +500,16 @@ static _Bool spec_ser_ok(const struct Position* p, const struct SerializeData* d
     return (f & 0xffff) == (U64)(p->fullMoveCounter & 0xffff) && ((f >> 16) & 0xff) == (U64)(p->halfMoveClock & 0xff)
         && ((f >> 24) & 0xff) == (U64)(p->epSquare & 0xff) && ((f >> 32) & 15) == (U64)p->castleMask && ((f >> 36) & 1) == (U64)(p->whiteMove ? 1 : 0) && (f >> 37) == 0;
 }
+/* inverse direction: what deSerialize must produce from the compact form */
+static int spec_nib(const struct SerializeData* d, int s) { return (int)((d->v[s / 16] >> (4 * (15 - s % 16))) & 15); }
+static _Bool ser_nibbles_ok(const struct SerializeData* d) { for (int s = 0; s < 64; s++) if (spec_nib(d, s) > 12) return 0; return 1; }
+static _Bool ser_flags_ok(const struct SerializeData* d) { int ep = (int)((d->v[4] >> 24) & 0xff); return ep <= 63 || ep == 0xff; }
+static _Bool spec_deser_ok(const struct Position* p, const struct SerializeData* d) {
+    for (int s = 0; s < 64; s++) if (p->squares[s] != spec_nib(d, s)) return 0;
+    U64 f = d->v[4]; int ep = (int)((f >> 24) & 0xff);
+    return p->fullMoveCounter == (int)(f & 0xffff) && p->halfMoveClock == (int)((f >> 16) & 0xff)
+        && p->epSquare == (ep == 0xff ? -1 : ep) && p->castleMask == (int)((f >> 32) & 15) && (p->whiteMove ? 1 : 0) == (int)((f >> 36) & 1);
+}
 #pragma CPROVER check pop
 """
 
@@ -521,6 +539,22 @@ void h_makeMove(void) { struct Position* p; struct Move* m; struct UndoInfo* u; 
 void h_addPiece(void) { struct MatId* m; int pt; havoc_tables(); MatId_addPiece(m, pt); CANARY_POINT; }
 void h_removePiece(void) { struct MatId* m; int pt; havoc_tables(); MatId_removePiece(m, pt); CANARY_POINT; }
 void h_serialize(void) { struct Position* p; struct SerializeData* d; havoc_tables(); Position_serialize(p, d); CANARY_POINT; }
+void h_deSerialize(void) { struct Position* p; struct SerializeData* d; havoc_tables(); Position_deSerialize(p, d); CANARY_POINT; }
+/* round trip as a lemma over the two contracts: deSerialize(serialize(a)) has a's board, side, castling rights, ep square and
+   clocks (clocks within the widths of the compact form: 8 and 16 bits) and consistent bitboards */
+void h_ser_roundtrip(void) {
+    struct Position a, b; struct SerializeData d; struct NNEvaluator nn;
+    havoc_tables();
+    __CPROVER_havoc_object(&a); __CPROVER_havoc_object(&b); __CPROVER_havoc_object(&d);
+    __CPROVER_assume(b.nnEval == 0 || b.nnEval == &nn);
+    __CPROVER_assume(PIECEVALUES_OK && squares_ok(&a) && FLAGS_OK(&a) && 0 <= a.halfMoveClock && a.halfMoveClock < 256
+                     && 0 <= a.fullMoveCounter && a.fullMoveCounter < 65536);
+    Position_serialize(&a, &d);
+    Position_deSerialize(&b, &d);
+    __CPROVER_assert(same_basic(&b, &a), "deSerialize(serialize(p)): board, side, castling, ep, clocks equal to p");
+    __CPROVER_assert(wf_bb(&b), "deSerialize(serialize(p)): bitboards consistent with the board");
+    CANARY_POINT;
+}
 void h_historyHash(void) { struct Position* p; havoc_tables(); Position_historyHash(p); CANARY_POINT; }
 void h_bookHash(void) { struct Position* p; havoc_tables(); Position_bookHash(p); CANARY_POINT; }
 
@@ -572,7 +606,7 @@ void h_fold_lemma(void) {
 
 UNWIND = {'squares_ok': 65, 'spec_bb': 65, 'spec_white': 65, 'spec_black': 65,
           'wf_bb': 14, 'spec_popcount': 65, 'spec_lowest': 65, 'spec_highest': 65,
-          'castle_tbl_ok': 65, 'epmask_ok': 9, 'same_basic': 65, 'same_all': 14, 'mat_legal_cnt': 14, 'spec_mat_hash': 14, 'spec_ser_ok': 65,
+          'castle_tbl_ok': 65, 'epmask_ok': 9, 'same_basic': 65, 'same_all': 14, 'mat_legal_cnt': 14, 'spec_mat_hash': 14, 'spec_ser_ok': 65, 'ser_nibbles_ok': 65, 'spec_deser_ok': 65,
           'Position_computeZobristHash': 65, 'Position_staticInitialize': 65, 'Position_serialize': 17, 'Position_deSerialize': 17,
           'Position_drawRuleEquals': 65}
 _MUT = ('Position_setPiece', 'Position_clearPiece', 'Position_movePieceNotPawn', 'Position_setEpSquare', 'Position_setCastleMask')
@@ -594,11 +628,17 @@ GROUPS = [
           cases=('case', [('CASE_MU=%d' % k,) for k in range(6)])),
     Group('fold_lemma', 'h_fold_lemma', cases=('KK', list(range(64))), min_props=4, timeout=3600, unwind=65),
     Group('serialize', 'h_serialize', enforce='Position_serialize', min_props=5),
+    Group('deSerialize', 'h_deSerialize', enforce='Position_deSerialize', replace=('NNEvaluator_forceFullEval',), min_props=5, timeout=1800),
+    Group('ser_roundtrip', 'h_ser_roundtrip', replace=('Position_serialize', 'Position_deSerialize'), min_props=2),
     Group('historyHash', 'h_historyHash', enforce='Position_historyHash', replace=('BitBoard_bitCount',), min_props=3),
     Group('bookHash', 'h_bookHash', enforce='Position_bookHash', min_props=3),
 ]
-# fold_lemma (update lemma of the fold ghosts) is built but does not close (see DESIGN 13.3): not part of the claim
-PROPERTIES = {'C02': [g.name for g in GROUPS if g.name != 'fold_lemma']}
+# fold_lemma (update lemma of the fold ghosts) is built but does not close (see DESIGN 13.3): not part of the claim.
+# deSerialize (whole-function contract: board/flags/clocks decoded, bitboards from scratch) did not finish in 1800 s
+# (DESIGN 13.14); ser_roundtrip is a lemma over the serialize and deSerialize contracts and closes in 11 s, but it rests
+# on the unproved deSerialize contract: neither is part of the claim.
+_UNCLAIMED = ('fold_lemma', 'deSerialize', 'ser_roundtrip')
+PROPERTIES = {'C02': [g.name for g in GROUPS if g.name not in _UNCLAIMED]}
 ASSUMPTIONS = {'C02': [
     'fold ghosts: ghost_H/ghost_PH/ghost_MAT/ghost_WM/.. stand for the from-scratch folds (xor of Zobrist keys, sums of material ids and piece values) of the current board; the single-square update lemma behind them (commutativity and associativity of xor / modular addition over 64 squares) is NOT machine-checked (group fold_lemma exists, SAT proof does not finish)',
     'pinned: squares[] is written only by setPiece, clearPiece, movePieceNotPawn (ghost updates spliced there), the ...B/SEE variants, the constructor and deSerialize',
@@ -607,7 +647,7 @@ ASSUMPTIONS = {'C02': [
     'material sums stay within +-10^6 (precondition; follows from at most 32 men of value <= 9900)',
     'induction over move histories from the per-operation contracts is a paper argument',
 ]}
-NOT_DECIDED = {'C02': ['FEN text write/read round trip (std::string)', 'deSerialize and computeZobristHash (loops recomputing the folds)', 'Position copy construction/assignment', 'negative half-move clock accepted by readFEN (outside every extracted function)']}
+NOT_DECIDED = {'C02': ['FEN text write/read round trip (std::string)', 'deSerialize (contract written, whole-function proof does not finish in 30 min; the round-trip lemma over the two contracts closes but is not claimed) and computeZobristHash (loops recomputing the folds)', 'Position copy construction/assignment', 'negative half-move clock accepted by readFEN (outside every extracted function)']}
 
 MUTANTS = [
     dict(name='setPiece_no_phash', file='lib/texellib/position.cpp', pattern=r'            if \(piece == Piece::WPAWN\) \{\n                wMtrlPawns_ \+= pVal;\n                pHashKey \^= psHashKeys\[Piece::WPAWN\]\[sq\];', repl='            if (piece == Piece::WPAWN) {\n                wMtrlPawns_ += pVal;', groups=['setPiece']),
